@@ -93,6 +93,30 @@ theorem linkNew_some {b b' : Book} {tip : Hash} {added : Hash} {ps : List Hash}
         · obtain ⟨h1, h2, h3, h4⟩ := hes e he
           exact ⟨h1, List.mem_cons_of_mem _ h2, by simpa [hasVertex] using h3, h4⟩
 
+/-- For the two-parent list used by both insertion paths: unless the left parent is the zero hash
+(the initial value of the Go loop's `addedHash`), both parents end up linked and were live. -/
+theorem linkNew_pair {b b' : Book} {tip l r : Hash} (h : linkNew b tip 0 [l, r] = some b') (hl : l ≠ 0) :
+    ∃ es : List (Hash × Hash), b' = { b with edges := b.edges ++ es } ∧ (l, tip) ∈ es ∧ (r, tip) ∈ es ∧
+      b.hasVertex l = true ∧ b.hasVertex r = true := by
+  simp only [linkNew] at h
+  rw [if_neg (by simpa using hl)] at h
+  split at h
+  · cases h
+  · rename_i b1 hb1
+    obtain ⟨hs, hd, hne, rfl⟩ := addEdge_some hb1
+    split at h
+    · rename_i hrl
+      have : r = l := by simpa using hrl
+      subst this
+      cases h
+      exact ⟨[(r, tip)], rfl, by simp, by simp, hs, hs⟩
+    · split at h
+      · cases h
+      · rename_i b2 hb2
+        obtain ⟨hs2, _, _, rfl⟩ := addEdge_some hb2
+        cases h
+        exact ⟨[(l, tip), (r, tip)], by simp, by simp, by simp, hs, by simpa [hasVertex] using hs2⟩
+
 theorem park_some {b b' : Book} {v : Vertex} {r : Nat} (h : b.park v r = some b') :
     b' = { b with parked := b.parked ++ [(v, r + 1)] } := by
   unfold park at h; split at h
